@@ -1063,6 +1063,8 @@ func callBuiltin(caller *frame, fn *ssa.Builtin, args []value) value {
 		switch x := args[0].(type) {
 		case string, symStr, symStrB:
 			return strLenValue(x)
+		case symBytes:
+			return strLenValue(normStr(x.s))
 		case array:
 			return len(x)
 		case *value:
@@ -1233,6 +1235,14 @@ func conv(fr *frame, t_dst, t_src types.Type, x value) value {
 	ut_dst := t_dst.Underlying()
 	if isSym(x) {
 		return fr.symConv(t_dst, t_src, x)
+	}
+	if sb, ok := x.(symBytes); ok {
+		if b, ok := ut_dst.(*types.Basic); ok && b.Kind() == types.String {
+			return normStr(sb.s)
+		}
+		if _, ok := ut_dst.(*types.Slice); ok {
+			return x
+		}
 	}
 
 	// Destination type is not an "untyped" type.
